@@ -546,3 +546,8 @@ Lemma ex_compute_runs :
                (srcfreq [1; 2] [5; 7]) (fun _ => None) = Some d'
              /\ map d' (srcfreq [1; 2] [5; 7]) = [Some 16; Some 18; Some 26; Some 28].
 Proof. eexists. split; vm_compute; reflexivity. Qed.
+
+(* the tolerance of a run depends on its kind only, not on the runs before it *)
+Lemma last_run_tol_lemma {A} (tf tg : A) (history : list run_kind) k :
+  last_run_tol tf tg history k = tol_of tf tg k.
+Proof. unfold last_run_tol. now rewrite last_last. Qed.
